@@ -54,6 +54,7 @@ def run(ctx):
     ctx.rule("C19-R3", "clean(): index tables are reset before any call that may run a component destructor")
     ctx.rule("C19-R4", "raw insert followed by an unwinding mask update removes the value again on the unwind path")
     ctx.rule("C19-R5", "Drop for MaskedStorage reaches clear() on every path")
+    ctx.rule("C19-R6", "no re-entrant destruction: the unwind path of a destructor-running call never destroys the same slot again")
     ctx.exception("changeset::ChangeSet::<T>::add", "R4: its storage is the concrete DenseVecStorage, which owns its values in a Vec; "
                   "an unwinding mask update leaves an unreachable but owned value (no double drop, no leak)")
     for cfg in configs(ctx.tier):
@@ -63,6 +64,7 @@ def run(ctx):
         r3(ctx, facts)
         r4(ctx, facts)
         r5(ctx, facts)
+        r6(ctx, facts)
 
 
 def nondelegating_sites(facts, trait_method):
@@ -154,63 +156,82 @@ def t_holding(field_ty, tparam):
     return re.search(r"(?<![\w:])%s(?![\w:])" % re.escape(tparam), field_ty) is not None
 
 
+DESTRUCTOR_CALLS = {"drop_in_place", "assume_init_drop"}
+CONTAINER_DROPPERS = {"clear", "truncate", "drain", "retain", "retain_mut", "dedup", "dedup_by", "dedup_by_key", "resize", "resize_with", "shrink_to", "split_off"}
+
+
+def destructor_sites(b, tparam=None, holding=None):
+    """blocks of `b` that may run a component destructor: drop_in_place / assume_init_drop, mem::drop of a T-holding value,
+    container clear & co on a T-holding field of self, delegated clean/drop, MIR drops of T-holding places (non-cleanup)"""
+    out = []
+    for bb, t in b.calls():
+        c = t["callee"]
+        nm = c.get("name")
+        if nm in DESTRUCTOR_CALLS:
+            out.append(bb)
+        elif c.get("path") in (UDROP, CLEAN):
+            out.append(bb)
+        elif nm == "drop" and c.get("path", "").endswith("mem::drop") and tparam and any(t_holding(x, tparam) for x in c.get("substs", [])):
+            out.append(bb)
+        elif holding is not None and nm in CONTAINER_DROPPERS and t["args"]:
+            o = b.arg_origin(bb, 0)
+            if o[0] == "param" and o[1] == 1 and o[2] and o[2][0] in holding:
+                out.append(bb)
+    if tparam:
+        for bid, blk in b.blocks.items():
+            tt = blk["term"]
+            if tt["k"] == "drop" and not blk["cleanup"] and t_holding(tt["place_ty"], tparam) and not tt["place_ty"].startswith(("&", "*")):
+                out.append(bid)
+    return sorted(set(out))
+
+
 def r3(ctx, facts):
     impls = [i for i in facts.impls if i["trait"] == "storage::UnprotectedStorage"]
     n = 0
     for im in impls:
-        cp = im["items"].get("clean")
-        b = facts.body(cp) if cp else None
-        if not b:
-            ctx.ob("C19-R3", "%s clean" % im["self_ty"], "undetermined", "", "no clean body found")
-            continue
-        n += 1
         tparam = im["trait_args"][0] if im["trait_args"] else "T"
         adt = facts.adts.get(base_ty(im["self_ty"]))
         if not adt:
-            ctx.ob("C19-R3", "%s clean" % im["self_ty"], "undetermined", b.loc(), "self type is not a local ADT")
+            ctx.ob("C19-R3", "%s" % im["self_ty"], "undetermined", "%s:%d" % (im["file"], im["line"]), "self type is not a local ADT")
             continue
         fields = {f["name"]: f["ty"] for v in adt["variants"] for f in v["fields"]}
         targs = generic_args(im["self_ty"])
-        # a field holds T if its type mentions the component parameter, or is a generic parameter of the
-        # storage (wrapper around an inner storage)
         holding = {f for f, ty in fields.items() if t_holding(ty, tparam) and not ty.startswith("std::marker::PhantomData")}
         holding |= {f for f, ty in fields.items() if ty in targs and ty != tparam}
         tables = {f for f in fields if f not in holding and not fields[f].startswith("std::marker::PhantomData")}
-        maydrop, tablemut = [], []
-        for bb, t in b.calls():
-            c = t["callee"]
-            if not t["args"]:
+        if "clean" in im["items"]:
+            n += 1
+        for mname, mpath in sorted(im["items"].items()):
+            b = facts.body(mpath)
+            if not b:
                 continue
-            o = b.arg_origin(bb, 0)
-            a0 = t["args"][0]
-            if o[0] == "param" and o[1] == 1 and o[2]:
-                f = o[2][0]
-                if f in holding and c.get("name") in MAYDROP_NAMES:
-                    maydrop.append(bb)
-                elif f in tables and isinstance(a0, dict) and str(a0.get("ty", "")).startswith("&mut"):
-                    tablemut.append((bb, f))
-            if c.get("name") in ("drop_in_place", "assume_init_drop") or c.get("path") in (UREMOVE, UDROP, CLEAN):
-                maydrop.append(bb)
-        for dbb in list(maydrop):
-            pass
-        # drop terminators of T-typed places also run destructors
-        for bid, blk in b.blocks.items():
-            tt = blk["term"]
-            if tt["k"] == "drop" and not blk["cleanup"] and t_holding(tt["place_ty"], tparam):
-                maydrop.append(bid)
-        bad = []
-        for mbb, f in tablemut:
-            for dbb in maydrop:
-                if mbb != dbb and mbb in b.reachable(dbb):
-                    bad.append((f, b.term(mbb)["line"], b.term(dbb)["line"]))
-        key = "%s clean tables-before-data" % base_ty(im["self_ty"])
-        ctx.ob("C19-R3", key, not bad, b.loc(),
-               "" if not bad else "; ".join("index table `%s` is mutated (line %d) after a call that may run component destructors (line %d): "
-                                            "an unwinding destructor leaves the table pointing at destroyed values" % x for x in bad),
-               nontrivial=bool(tables))
-        ctx.note("[%s] %s: T-holding fields %s, tables %s, may-drop sites %d, table mutations %d" % (
-            facts.config, base_ty(im["self_ty"]), sorted(holding), sorted(tables), len(maydrop), len(tablemut)))
-    ctx.floor("C19-R3", "UnprotectedStorage::clean impls", n, 6)
+            maydrop = destructor_sites(b, tparam, holding)
+            tablemut = []
+            for bb, t in b.calls():
+                if not t["args"]:
+                    continue
+                o = b.arg_origin(bb, 0)
+                a0 = t["args"][0]
+                if o[0] == "param" and o[1] == 1 and o[2] and o[2][0] in tables and isinstance(a0, dict) and str(a0.get("ty", "")).startswith("&mut"):
+                    tablemut.append((bb, o[2][0]))
+            for sbb, si, dst, rv, line in b.stores():
+                o = b.origin(dst)
+                if o[0] == "param" and o[1] == 1 and o[2] and o[2][0] in tables:
+                    tablemut.append((sbb, o[2][0]))
+            bad = []
+            for mbb, f in tablemut:
+                for dbb in maydrop:
+                    if mbb != dbb and mbb in b.reachable(dbb):
+                        bad.append((f, b.term(mbb)["line"], b.term(dbb)["line"]))
+            if not maydrop and not tablemut and mname != "clean":
+                continue
+            key = "%s::%s tables-before-destructors" % (base_ty(im["self_ty"]), mname)
+            ctx.ob("C19-R3", key, not bad, b.loc(),
+                   "" if not bad else "; ".join("index table `%s` is mutated (line %d) after a point that may run a component destructor (line %d): "
+                                                "an unwinding destructor leaves the table inconsistent with the data" % x for x in sorted(set(bad))),
+                   nontrivial=bool(tables and maydrop))
+        ctx.note("[%s] %s: T-holding fields %s, tables %s" % (facts.config, base_ty(im["self_ty"]), sorted(holding), sorted(tables)))
+    ctx.floor("C19-R3", "UnprotectedStorage impls with clean()", n, 6)
 
 
 def r4(ctx, facts):
@@ -294,3 +315,97 @@ def r5(ctx, facts):
         ctx.ob("C19-R5", "Drop for MaskedStorage -> clear()", ok, b.loc(),
                "" if ok else ("teardown calls clean() directly instead of the panic-safe clear()" if cleans_direct else
                               "teardown does not reach clear() on path %s" % b.fmt_path(wit)))
+
+
+def may_destroy_set(facts):
+    """bodies that (transitively, through resolved crate-local calls) contain a destructor-running site"""
+    prim = {b.path for b in facts.bodies if destructor_sites(b)}
+    md = set(prim)
+    changed = True
+    while changed:
+        changed = False
+        for b in facts.bodies:
+            if b.path in md:
+                continue
+            for bb, t in b.calls():
+                c = t["callee"]
+                tg = c.get("resolved") if c.get("resolved") and c.get("resolved") != "<virtual>" else (c.get("path") if not c.get("trait") else None)
+                if tg in md:
+                    md.add(b.path)
+                    changed = True
+                    break
+    return prim, md
+
+
+def r6(ctx, facts):
+    prim, md = may_destroy_set(facts)
+    nsites = 0
+    for b in facts.bodies:
+        sites = set(destructor_sites(b))
+        for bb, t in b.calls():
+            c = t["callee"]
+            tg = c.get("resolved") if c.get("resolved") and c.get("resolved") != "<virtual>" else (c.get("path") if not c.get("trait") else None)
+            if tg in md:
+                sites.add(bb)
+        for sbb in sorted(sites):
+            t = b.term(sbb)
+            uw = t.get("unwind")
+            if not isinstance(uw, int):
+                continue
+            nsites += 1
+            cleanup = b.reachable(uw, unwind=True)
+            reentered = []
+            for cbb in cleanup:
+                ct = b.term(cbb)
+                entry = []
+                if ct["k"] == "drop":
+                    glue, _ = facts.drop_glue(ct["place_ty"])
+                    entry = [facts.body(g) for g in glue if facts.body(g)]
+                elif ct["k"] == "call":
+                    entry = [x for x in facts.targets(ct["callee"]) if not ct["callee"].get("trait")]
+                if not entry:
+                    continue
+                seen = facts.reach(entry, edge_filter=lambda bd, xbb, xt: not xt["callee"].get("trait") or xt["callee"].get("resolved"))
+                for pth in seen:
+                    if pth in prim:
+                        reentered.append((cbb, pth, facts.chain(seen, pth)))
+            if not reentered:
+                continue
+            # accepted idiom: in the re-entered body the cursor that selects the slot is advanced before the destructor call
+            for cbb, pth, chain in reentered:
+                rb = facts.body(pth)
+                ok = rb is not None and cursor_advanced_before_destroy(rb)
+                ctx.ob("C19-R6", "%s unwind of %s re-enters %s" % (b.path, t.get("callee", {}).get("path", "drop"), pth), ok, b.loc(sbb),
+                       "" if ok else "if a component destructor panics here, the cleanup path (%s, via %s) runs destructor code again without having "
+                       "advanced past the slot that panicked: that slot is destroyed twice" % (b.loc(cbb), chain))
+    ctx.ob("C19-R6", "destructor-running call sites with an unwind edge examined", nsites > 0, "", "%d sites" % nsites, nontrivial=False)
+
+
+def cursor_advanced_before_destroy(rb):
+    """every primitive destructor site in rb is preceded, after the read of the self field that selects its slot, by a store to that field"""
+    sites = destructor_sites(rb)
+    if not sites:
+        return False
+    for s in sites:
+        t = rb.term(s)
+        if t["k"] != "call" or not t["args"]:
+            return False
+        deps = rb.deps(rb.arg_origin(s, 0))
+        cursor = {d[2][0] for d in deps if d[0] == "param" and d[1] == 1 and len(d[2]) == 1 and rb.d["locals"] and True}
+        # keep integer-typed cursor candidates: fields read as call arguments of type usize/u32
+        sel = []
+        for d in deps:
+            if d[0] == "call":
+                ct = rb.term(d[1])
+                for a in ct["args"]:
+                    ao = rb.operand_origin(a)
+                    if ao[0] == "param" and ao[1] == 1 and len(ao[2]) == 1 and isinstance(a, dict) and a.get("ty") in ("usize", "u32", "u64"):
+                        sel.append((d[1], ao[2][0]))
+        if not sel:
+            return False
+        for selbb, fld in sel:
+            stores = [sbb for sbb, si, dst, rv, line in rb.stores() if rb.origin(dst) == ("param", 1, (fld,))]
+            ok, _ = rb.must_pass(selbb, stores, goals=[s]) if stores else (False, None)
+            if not ok:
+                return False
+    return True
